@@ -29,6 +29,10 @@ def fixture_classes(tier: str, seed: int):
     pats_ab = [["aa"], ["ab"], ["ba"], ["ab", "ba"], ["aba", "bb"], ["aa", "ab"], ["aa", "aaa"], ["b", "aa"], ["aab", "bba"], []]
     prefixes = ["", "a", "b", "ab", "ba", "aab", "bb", "bba", "abba", "bab"]
     stats = ["s0", "s1", "s2", "s2t", "s2m", "s3d", "s2x"] if tier == "thorough" else ["s0", "s2", "s2t", "s2m", "s3d"]
+    if tier == "thorough":
+        words = ["".join(w) for n in (1, 2) for w in itertools.product("ab", repeat=n)]
+        pats_ab = pats_ab + [[u] for u in words if [u] not in pats_ab] + [[u, v] for u in words for v in words if u < v and [u, v] not in pats_ab]
+        prefixes = [""] + ["".join(w) for n in (1, 2, 3) for w in itertools.product("ab", repeat=n)]
     out = []
     strategies = [W.Expand(), W.ExpandTrim(), W.ExpandTrimRename(), W.RemoveFront(), W.RemoveFrontHidden(), W.RemoveFrontRename(), W.SplitFront(),
                   W.SplitMonotone(), W.Swap(),
